@@ -9,39 +9,72 @@ Accepted outcome per candidate
   import_error  ValueError("Import path `..` could not be resolved.") from `_load_imported_paths`:
                 the file parsed, a syntactically valid import names a module that does not exist.
                 Counted separately, not a violation (not a statement about the text being parseable).
-Everything else (other exception types, ColangParsingError without the file, > TIMEOUT seconds) is a
+Everything else (other exception types, ColangParsingError without the file, no result in time) is a
 violation, classified by (version, exception type, innermost nemoguardrails frame function,
 type of the exception it was raised while handling).
+
+Hangs.  A load of these <= 250-character files takes 1-10 ms.  Every load runs under a *CPU-time*
+screen (ITIMER_VIRTUAL, SCREEN_CPU seconds - independent of machine load); a load that exceeds it is a
+hang *suspect*.  The stack is sampled twice; the deepest nemoguardrails frame alive in both samples
+(= the frame that owns the non-terminating loop) names the class, which makes the signature stable.
+The parent then re-runs the smallest suspect of every class under the full wall-clock alarm of
+TIMEOUT = 10 s; only a confirmed class is reported.  If the representative does terminate, every other
+suspect of the class is re-run with the 10 s alarm (terminating ones get their real outcome).
 """
 from __future__ import annotations
 
 import itertools
 import os
 import signal
-import traceback
 
 from vf.props import c13_seeds as S
 from vf.props.c13_layout import inner_lib_function
 
-TIMEOUT = 10
+TIMEOUT = 10.0
+SCREEN_CPU = 0.25
 
 _SCRATCH = None  # set by the parent before forking
 _DIRS = {}
+_SAMPLE = {}
 
 
 class _Hang(BaseException):
     pass
 
 
-def _on_alarm(signum, frame):
-    fn = "?"
-    f = frame
-    while f is not None:
-        if "nemoguardrails" in f.f_code.co_filename.replace("\\", "/").split("/"):
-            fn = f.f_code.co_name
-            break
-        f = f.f_back
-    raise _Hang(fn)
+def _is_lib(frame):
+    return "nemoguardrails" in frame.f_code.co_filename.replace("\\", "/").split("/")
+
+
+def _stack(frame):
+    out = []
+    while frame is not None:
+        out.append(frame)
+        frame = frame.f_back
+    return out
+
+
+def _handler(which, second_delay):
+    def h(signum, frame):
+        first = _SAMPLE.get("first")
+        if first is None:
+            _SAMPLE["first"] = _stack(frame)
+            signal.setitimer(which, second_delay)
+            return
+        alive = {id(f) for f in _stack(frame)}  # frames of `first` are referenced: ids are unique
+        fn = "?"
+        for f in first:  # innermost first
+            if id(f) in alive and _is_lib(f):
+                fn = f.f_code.co_name
+                break
+        _SAMPLE.clear()
+        raise _Hang(fn)
+
+    return h
+
+
+def _one_line(e, n):
+    return " ".join(str(e).split())[:n]
 
 
 def _dir(ver):
@@ -56,8 +89,8 @@ def _dir(ver):
     return d
 
 
-def load(ver, text, timeout=TIMEOUT):
-    """-> (outcome, signature | None, detail)"""
+def load(ver, text, mode="screen"):
+    """-> (outcome, signature | None, detail);  mode 'screen' (CPU-time) | 'confirm' (10 s wall)."""
     from nemoguardrails import RailsConfig
     from nemoguardrails.colang.v2_x.runtime.errors import ColangParsingError
 
@@ -65,33 +98,45 @@ def load(ver, text, timeout=TIMEOUT):
     path = os.path.join(d, "x.co")
     with open(path, "w", encoding="utf-8", newline="") as f:
         f.write(text)
-    old = signal.signal(signal.SIGALRM, _on_alarm)
-    signal.alarm(timeout)
+    if mode == "screen":
+        which, sig_no, limit, second = signal.ITIMER_VIRTUAL, signal.SIGVTALRM, SCREEN_CPU, 0.05
+    else:
+        which, sig_no, limit, second = signal.ITIMER_REAL, signal.SIGALRM, TIMEOUT, 0.2
+    _SAMPLE.clear()
+    old = signal.signal(sig_no, _handler(which, second))
     try:
         try:
+            signal.setitimer(which, limit)
             RailsConfig.from_path(d)
             return "ok", None, None
         finally:
-            signal.alarm(0)
-            signal.signal(signal.SIGALRM, old)
+            signal.setitimer(which, 0)
+            signal.signal(sig_no, old)
+            _SAMPLE.clear()
     except _Hang as h:
-        return "violation", f"E:{ver}:hang@{h.args[0]}", f"no result after {timeout}s (in {h.args[0]})"
+        what = f"> {SCREEN_CPU}s CPU (suspect)" if mode == "screen" else f"no result after {TIMEOUT:.0f}s"
+        return "hang", f"E:{ver}:hang@{h.args[0]}", f"{what}; non-terminating frame: {h.args[0]}"
     except ColangParsingError as e:
         if path in str(e):
             return "parse_error", None, None
-        return "violation", f"E:{ver}:ColangParsingError-without-file", str(e)[:200]
+        return "violation", f"E:{ver}:ColangParsingError-without-file", _one_line(e, 200)
     except Exception as e:  # noqa
         fn = inner_lib_function(e.__traceback__)
         if isinstance(e, ValueError) and fn == "_load_imported_paths" and "could not be resolved" in str(e):
             return "import_error", None, None
         ctx = e.__cause__ or e.__context__
         sig = f"E:{ver}:{type(e).__name__}@{fn}"
-        det = f"{type(e).__name__}: {str(e)[:200]}"
+        det = f"{type(e).__name__}: {_one_line(e, 200)}"
         if ctx is not None:
             cfn = inner_lib_function(ctx.__traceback__)
             sig += f"<{type(ctx).__name__}"
-            det += f"  (while handling {type(ctx).__name__}@{cfn}: {str(ctx)[:120]})"
+            det += f"  (while handling {type(ctx).__name__}@{cfn}: {_one_line(ctx, 120)})"
         return "violation", sig, det
+
+
+def confirm_task(task):
+    ver, text = task
+    return (ver, text) + load(ver, text, mode="confirm")
 
 
 # ------------------------------------------------------------------ candidate spaces
@@ -115,29 +160,37 @@ def soups(length, prefix):
         yield tuple(prefix) + rest
 
 
+# max token-string length per (tier, version, context index);  see README in c13.py
+SOUP_K = {
+    "quick": {("2.x", 0): 3, ("2.x", 1): 3, ("1.0", 0): 2, ("1.0", 1): 3},
+    "thorough": {("2.x", 0): 4, ("2.x", 1): 4, ("1.0", 0): 3, ("1.0", 1): 3},
+}
+
+
 def e_tasks(tier):
-    k = 3 if tier == "quick" else 4
     tasks = []
     for ver in ("2.x", "1.0"):
         for si in range(len(S.E_SEEDS[ver])):
             for kind in MUT_KINDS:
                 tasks.append(("mut", ver, si, kind))
         for ci in range(len(S.CONTEXTS[ver])):
-            for length in range(1, k + 1):
+            for length in range(1, SOUP_K[tier][(ver, ci)] + 1):
                 npre = max(0, length - 2)
                 for prefix in itertools.product(S.TOKENS, repeat=npre):
                     tasks.append(("soup", ver, ci, length, prefix))
-    return tasks, k
+    return tasks
 
 
 def e_task(task):
-    out = {"loads": 0, "ok": 0, "parse_error": 0, "import_error": 0, "violations": 0, "dup_texts": 0,
-           "classes": {}, "space": task[0] + ":" + task[1], "planned": 0}
+    out = {"loads": 0, "ok": 0, "parse_error": 0, "import_error": 0, "violations": 0, "hang_suspects": 0,
+           "dup_texts": 0, "classes": {}, "planned": 0}
     if task[0] == "mut":
         _, ver, si, kind = task
+        out["space"] = f"mut:{ver}"
         cands = [(t, {"seed": si, "kind": kind}) for t in mutants(S.E_SEEDS[ver][si], kind)]
     else:
         _, ver, ci, length, prefix = task
+        out["space"] = f"soup:{ver}:ctx{ci}:len{length}"
         ctx = S.CONTEXTS[ver][ci]
         cands = [(ctx + S.soup_text(toks), {"ctx": ci, "tokens": list(toks)}) for toks in soups(length, prefix)]
     out["planned"] = len(cands)
@@ -149,15 +202,16 @@ def e_task(task):
         seen.add(text)
         outcome, sig, det = load(ver, text)
         out["loads"] += 1
-        if outcome != "violation":
+        if outcome not in ("violation", "hang"):
             out[outcome] += 1
             continue
-        out["violations"] += 1
+        out["violations" if outcome == "violation" else "hang_suspects"] += 1
         c = out["classes"].get(sig)
         if c is None:
-            out["classes"][sig] = {"n": 1, "text": text, "detail": det, "ver": ver, "meta": meta}
-        else:
-            c["n"] += 1
-            if (len(text), text) < (len(c["text"]), c["text"]):
-                c.update(text=text, detail=det, meta=meta)
+            c = out["classes"][sig] = {"n": 0, "text": text, "detail": det, "ver": ver, "meta": meta, "suspects": []}
+        c["n"] += 1
+        if outcome == "hang":
+            c["suspects"].append(text)
+        if (len(text), text) < (len(c["text"]), c["text"]):
+            c.update(text=text, detail=det, meta=meta)
     return out
